@@ -109,7 +109,11 @@ def num(n):
         return "(1 : α)"
     if v == 0:
         return "(0 : α)"
-    raise Untranslatable(f"numeric literal {v!r} (only 0 and 1 occur in the rate programs)")
+    from fractions import Fraction
+    q = Fraction(repr(v)) if isinstance(v, float) else Fraction(v)
+    if q < 0:
+        raise Untranslatable(f"negative numeric literal {v!r}")
+    return f"(ratLit {q.numerator} {q.denominator})"
 
 
 def expr(n, cx):
@@ -196,6 +200,24 @@ def subscript(n, cx):
         if key == "compartment_infectiousness":
             return ("compartment_infectiousness", "VD")
         raise Untranslatable("model_data key " + ast.unparse(n))
+    if bt == "VM" and isinstance(sl, ast.Tuple) and len(sl.elts) == 2 and isinstance(sl.elts[0], ast.Slice) \
+            and sl.elts[0].lower is None and sl.elts[0].upper is None and sl.elts[0].step is None:
+        cols = expr(sl.elts[1], cx)
+        if cols[1] == "IV":
+            return (f"(Jax.colsTake {base[0]} {cols[0]})", "VM")
+        raise Untranslatable("column selection " + ast.unparse(n))
+    if bt == "V" and isinstance(sl, ast.Slice) and sl.step is None:
+        lo, hi = sl.lower, sl.upper
+        if lo is not None and hi is None:
+            k = expr(lo, cx)
+            if k[1] == "N" or (const_num(lo) is not None and isinstance(const_num(lo), int) and const_num(lo) >= 0):
+                kk = k[0] if k[1] == "N" else str(const_num(lo))
+                return (f"({base[0]}.drop {kk})", "V")
+        if lo is None and isinstance(hi, ast.UnaryOp) and isinstance(hi.op, ast.USub) and const_num(hi.operand) == 1:
+            return (f"({base[0]}.dropLast)", "V")
+        raise Untranslatable("slice " + ast.unparse(n))
+    if bt == "V" and const_num(sl) is not None and isinstance(const_num(sl), int):
+        return (f"(jget {base[0]} ({const_num(sl)} : Int))", "S")
     idx = expr(sl, cx)
     it = idx[1]
     if bt in ("VD", "IVD", "IMD") and it == "STRAIN":
@@ -221,6 +243,8 @@ def binop(n, cx):
             return (f"(vscale {a[0]} {b[0]})", "V")
         if ta == "S" and tb == "S":
             return (f"({a[0]} * {b[0]})", "S")
+    if isinstance(n.op, ast.Add) and ta == "V" and tb == "V":
+        return (f"(vadd {a[0]} {b[0]})", "V")
     if isinstance(n.op, ast.Div) and ta == "V" and tb == "V":
         return (f"(List.zipWith (· / ·) {a[0]} {b[0]})", "V")
     if isinstance(n.op, ast.MatMult) and ta == "M" and tb == "V":
@@ -265,8 +289,15 @@ def call(n, cx):
     if isinstance(f, ast.Attribute) and f.attr == "set" and isinstance(f.value, ast.Subscript) and isinstance(f.value.value, ast.Attribute) \
             and f.value.value.attr == "at" and len(n.args) == 1 and not n.keywords:
         base = expr(f.value.value.value, cx)
-        idx = expr(f.value.slice, cx)
+        sl_ = f.value.slice
         v = expr(n.args[0], cx)
+        if base[1] == "V" and isinstance(sl_, ast.Slice) and sl_.upper is None and sl_.step is None and sl_.lower is not None and v[1] == "V":
+            k = expr(sl_.lower, cx) if const_num(sl_.lower) is None else (str(const_num(sl_.lower)), "N")
+            if k[1] == "N":
+                return (f"(Jax.atFromSet {base[0]} {k[0]} {v[0]})", "V")
+        if base[1] == "V" and const_num(sl_) is not None and isinstance(const_num(sl_), int) and const_num(sl_) >= 0 and v[1] == "S":
+            return (f"({base[0]}.set {const_num(sl_)} {v[0]})", "V")
+        idx = expr(sl_, cx)
         if base[1] == "V" and idx[1] == "IV" and v[1] == "S":
             return (f"(Jax.atSetAll {base[0]} {idx[0]} {v[0]})", "V")
         if base[1] == "V" and idx[1] == "IV" and v[1] == "V":
@@ -287,6 +318,30 @@ def call(n, cx):
         a = expr(n.args[0], cx)
         if a[1] == "N":
             return (f"(List.replicate {a[0]} (1 : α))", "V")
+    if fs == "jnp.zeros" and len(n.args) == 1 and all(k.arg == "dtype" for k in n.keywords):
+        a0 = n.args[0]
+        if isinstance(a0, ast.Attribute) and a0.attr == "shape":
+            a = expr(a0.value, cx)
+            if a[1] == "V":
+                return (f"(List.replicate {a[0]}.length (0 : α))", "V")
+        else:
+            a = expr(a0, cx)
+            if a[1] == "N":
+                return (f"(List.replicate {a[0]} (0 : α))", "V")
+        raise Untranslatable("jnp.zeros " + ast.unparse(n))
+    if fs == "jnp.cumsum" and len(n.args) == 1 and not n.keywords:
+        a = expr(n.args[0], cx)
+        if a[1] == "V":
+            return (f"(cumsum {a[0]})", "V")
+    if isinstance(f, ast.Attribute) and f.attr == "sum" and isinstance(f.value, ast.Call) and ast.unparse(f.value.func) == "jnp.array" \
+            and len(f.value.args) == 1 and not n.args and {k.arg: ast.unparse(k.value) for k in n.keywords} == {"axis": "0"}:
+        a = expr(f.value.args[0], cx)
+        if a[1] == "VM":
+            return (f"(Jax.sumAxis0 {a[0]})", "V")
+    if isinstance(f, ast.Attribute) and f.attr == "max" and not n.args and not n.keywords:
+        a = expr(f.value, cx)
+        if a[1] == "V":
+            return (f"(Jax.maxL {a[0]})", "S")
     if fs == "np.zeros" and len(n.args) == 1 and isinstance(n.args[0], ast.Tuple) and len(n.args[0].elts) == 2 and not n.keywords:
         r = expr(n.args[0].elts[0], cx); c = expr(n.args[0].elts[1], cx)
         if r[1] == "N" and c[1] == "N":
@@ -866,6 +921,182 @@ def gen(tree, out, report):
     attempt("get_rates", t_get_rates)
 
 
+
+# ------------------------------------------------------------------------------------------------ derived outputs
+DSRC = "summer2/runner/jax/derived_outputs.py"
+
+
+def closure_returned_as_function(builder, fname, arg_src):
+    """the builder ends with `return Function(<fname>, <arg_src>)`"""
+    ret = builder.body[-1]
+    want = f"Function({fname}, {arg_src})"
+    if not (isinstance(ret, ast.Return) and ast.unparse(ret.value) == want):
+        raise Untranslatable(f"{builder.name} does not end with `return {want}`")
+
+
+def translate_closure(fn, env, funcs, want_ret="V"):
+    cx = Cx(env, funcs)
+    body = block(fn.body, cx, lambda c: "", 2)
+    if cx.env.get("@return", (None, None))[1] != want_ret:
+        raise Untranslatable(f"{fn.name} returns {cx.env.get('@return', (None, None))[1]}")
+    return body
+
+
+def gen_derived(tree, out, report):
+    funcs = {}
+
+    def attempt(key, thunk):
+        try:
+            out.append(thunk())
+            report[key] = "ok"
+        except Untranslatable as e:
+            report[key] = "untranslatable: " + str(e)
+        except Exception as e:
+            report[key] = "untranslatable: internal " + type(e).__name__ + ": " + str(e)
+
+    def t_flow():
+        b = top_func(tree, "build_flow_output")
+        closure_returned_as_function(b, "get_flow_output", "[ModelVariable('flows')]")
+        # flow_indices = jnp.array(flow_indices) ; use_raw_results = request["raw_results"]
+        raw_name = None
+        the_if = None
+        for st in b.body:
+            if isinstance(st, ast.Assign) and ast.unparse(st.value) == "request['raw_results']" and isinstance(st.targets[0], ast.Name):
+                raw_name = st.targets[0].id
+            if isinstance(st, ast.If) and isinstance(st.test, ast.Name) and st.test.id == raw_name:
+                the_if = st
+        if the_if is None:
+            raise Untranslatable("build_flow_output: no `if <request['raw_results']>:` selecting the closure")
+        parts = []
+        for branch in (the_if.body, the_if.orelse):
+            fns = [x for x in branch if isinstance(x, ast.FunctionDef)]
+            if len(fns) != 1 or len(branch) != 1 or fns[0].name != "get_flow_output" or arg_names(fns[0]) != ["flows"]:
+                raise Untranslatable("build_flow_output: each branch must define get_flow_output(flows)")
+            parts.append(translate_closure(fns[0], {"flows": ("flows", "VM"), "flow_indices": ("flow_indices", "IV"), "times": ("times", "V")}, funcs))
+        body = f"  if raw_results then\n{parts[0]}\n  else\n{parts[1]}"
+        return emit("get_flow_output", "(raw_results : Bool) (times : List α) (flow_indices : List Nat) (flows : List (List α))", body, "List α",
+                    "`derived_outputs.py::build_flow_output` → `get_flow_output` (the closure chosen by `request['raw_results']`)")
+    attempt("get_flow_output", t_flow)
+
+    def t_comp():
+        b = top_func(tree, "build_compartment_output")
+        closure_returned_as_function(b, "summed_compartment_outputs", "[ModelVariable('outputs')]")
+        fn = inner_func(b, "summed_compartment_outputs")
+        if arg_names(fn) != ["outputs"]:
+            raise Untranslatable("signature of summed_compartment_outputs")
+        body = translate_closure(fn, {"outputs": ("outputs", "VM"), "indices": ("indices", "IV")}, funcs)
+        return emit("summed_compartment_outputs", "(indices : List Nat) (outputs : List (List α))", body, "List α",
+                    "`derived_outputs.py::build_compartment_output` → `summed_compartment_outputs`")
+    attempt("summed_compartment_outputs", t_comp)
+
+    def t_agg():
+        fn = top_func(tree, "return_agg")
+        a = fn.args
+        if a.args or a.kwarg or a.kwonlyargs or a.vararg is None:
+            raise Untranslatable("signature of return_agg")
+        body = translate_closure(fn, {a.vararg.arg: (a.vararg.arg, "VM")}, funcs)
+        b = top_func(tree, "build_aggregate_output")
+        ret = b.body[-1]
+        if not (isinstance(ret, ast.Return) and ast.unparse(ret.value) == "Function(return_agg, [local(src) for src in request['sources']])"):
+            raise Untranslatable("build_aggregate_output does not hand the sources, in order, to return_agg")
+        return emit("return_agg", f"({a.vararg.arg} : List (List α))", body, "List α", "`derived_outputs.py::return_agg` (called with the source series in request order)")
+    attempt("return_agg", t_agg)
+
+    def t_cum():
+        b = top_func(tree, "build_cumulative_output")
+        stmts = [st for st in b.body if not (isinstance(st, ast.Expr) and isinstance(st.value, ast.Constant))]
+        src = [ast.unparse(st) for st in stmts]
+        if arg_names(b)[:3] != ["request", "name", "times"]:
+            raise Untranslatable("signature of build_cumulative_output")
+        if len(stmts) != 6:
+            raise Untranslatable(f"build_cumulative_output has {len(stmts)} statements, expected 6")
+        if src[0] != "source_name = request['source']" or src[1] != "start_time = request['start_time']":
+            raise Untranslatable("build_cumulative_output: request fields")
+        cx = Cx({"times": ("times", "V")}, funcs)
+        if not (isinstance(stmts[2], ast.Assign) and ast.unparse(stmts[2].targets[0]) == "max_time"):
+            raise Untranslatable("build_cumulative_output: max_time")
+        mt = expr(stmts[2].value, cx)
+        if mt[1] != "S":
+            raise Untranslatable("max_time is not a scalar")
+        # if start_time and start_time > max_time: ...; start_time = max_time
+        c = stmts[3]
+        ok = (isinstance(c, ast.If) and not c.orelse and isinstance(c.test, ast.BoolOp) and isinstance(c.test.op, ast.And) and len(c.test.values) == 2
+              and ast.unparse(c.test.values[0]) == "start_time" and ast.unparse(c.test.values[1]) == "start_time > max_time")
+        if ok:
+            eff = [x for x in c.body if not (isinstance(x, ast.Assign) and ast.unparse(x.targets[0]) == "msg")
+                   and not (isinstance(x, ast.Expr) and ast.unparse(x.value).startswith("logger."))]
+            ok = len(eff) == 1 and ast.unparse(eff[0]) == "start_time = max_time"
+        if not ok:
+            raise Untranslatable("build_cumulative_output: clamping of a start time beyond the last time: " + src[3][:80])
+        if src[4] != "if baseline_offset is not None:\n    raise NotImplementedError()":
+            raise Untranslatable("build_cumulative_output: baseline_offset")
+        f = stmts[5]
+        if not (isinstance(f, ast.If) and ast.unparse(f.test) == "start_time is None" and len(f.body) == 1
+                and ast.unparse(f.body[0]) == "return Function(jnp.cumsum, [local(source_name)])"):
+            raise Untranslatable("build_cumulative_output: the no-start-time branch")
+        e = f.orelse
+        if not (len(e) == 4 and isinstance(e[0], ast.Assert) and ast.unparse(e[0].test) == "start_time in times"
+                and ast.unparse(e[1]) == "start_idx = np.where(times == start_time)[0][0]"
+                and isinstance(e[2], ast.FunctionDef) and arg_names(e[2]) == ["in_arr"]
+                and ast.unparse(e[3]) == f"return Function({e[2].name}, [local(source_name)])"):
+            raise Untranslatable("build_cumulative_output: the start-time branch")
+        body = translate_closure(e[2], {"in_arr": ("in_arr", "V"), "times": ("times", "V"), "start_idx": ("start_idx", "N")}, funcs)
+        text = (f"  let max_time := {mt[0]}\n"
+                "  let start_time' := if (Jax.truthyOptNum start_time && decide (max_time < start_time.getD 0)) then some max_time else start_time\n"
+                "  if start_time'.isNone then some (cumsum in_arr)\n"
+                "  else if Jax.memF times (start_time'.getD 0) then\n"
+                "    let start_idx := Jax.firstIdxEq times (start_time'.getD 0)\n"
+                "    some (\n" + body + ")\n"
+                "  else none")
+        return emit("cumulative_output", "(times : List α) (start_time : Option α) (in_arr : List α)", text, "Option (List α)",
+                    "`derived_outputs.py::build_cumulative_output`: the series computed from the source series `in_arr` (`none`: the `assert start_time in times` fails)")
+    attempt("cumulative_output", t_cum)
+
+    def t_dispatch():
+        b = top_func(tree, "build_derived_outputs_runner")
+        loop = [st for st in b.body if isinstance(st, ast.For)]
+        if len(loop) != 1 or ast.unparse(loop[0].iter) != "model._derived_output_requests.items()":
+            raise Untranslatable("build_derived_outputs_runner: request loop")
+        table = []
+        save = None
+        for st in loop[0].body:
+            if isinstance(st, ast.If) and ast.unparse(st.test) == "request['save_results']":
+                save = ast.unparse(st.body[0]) if len(st.body) == 1 else None
+            if isinstance(st, ast.If) and ast.unparse(st.test).startswith("req_type =="):
+                cur = st
+                while True:
+                    t = cur.test
+                    if not (isinstance(t, ast.Compare) and ast.unparse(t.left) == "req_type" and isinstance(t.comparators[0], ast.Constant)):
+                        raise Untranslatable("request dispatch test " + ast.unparse(t))
+                    if len(cur.body) != 1 or not isinstance(cur.body[0], ast.Assign) or ast.unparse(cur.body[0].targets[0]) != "graph_dict[name]":
+                        raise Untranslatable("request dispatch body " + ast.unparse(cur.body[0])[:60])
+                    table.append((t.comparators[0].value, ast.unparse(cur.body[0].value)))
+                    if len(cur.orelse) == 1 and isinstance(cur.orelse[0], ast.If):
+                        cur = cur.orelse[0]
+                    else:
+                        if not (len(cur.orelse) == 1 and isinstance(cur.orelse[0], ast.Raise)):
+                            raise Untranslatable("request dispatch: unknown request types must raise")
+                        break
+        if save != "out_keys.append(name)":
+            raise Untranslatable("build_derived_outputs_runner: saved results")
+        rows = ", ".join(f'("{k}", "{v}")' for k, v in table)
+        return ("/-- `derived_outputs.py::build_derived_outputs_runner`: which builder serves which request type (source text of the call) -/\n"
+                f"def request_dispatch : List (String × String) := [{rows}]\n")
+    attempt("request_dispatch", t_dispatch)
+
+
+DHEADER = """-- GENERATED by harness/translate/gen_rates.py from /repo (summer2/runner/jax/derived_outputs.py). Do not edit.
+import Summer.Model.JaxPrelude
+import Summer.Model.Lit
+import Summer.Model.Run
+set_option linter.unusedVariables false
+namespace Summer.Generated.DerivedOut
+open Summer Summer.Run
+
+section
+variable {α : Type} [Zero α] [One α] [Add α] [Sub α] [Mul α] [Div α] [LT α] [DecidableLT α]
+"""
+
 HEADER = """-- GENERATED by harness/translate/gen_rates.py from /repo (summer2/runner/jax/model_impl.py). Do not edit.
 import Summer.Model.JaxPrelude
 import Summer.Model.Run
@@ -894,6 +1125,21 @@ def main():
     if old != text:
         with open(path, "w") as f:
             f.write(text)
+    # derived outputs
+    dout = [DHEADER]
+    try:
+        with open(os.path.join(REPO, DSRC)) as f:
+            dtree = ast.parse(f.read())
+        gen_derived(dtree, dout, report)
+    except Exception as e:
+        report["derived_outputs.py"] = "untranslatable: " + type(e).__name__ + ": " + str(e)
+    dout.append("end\nend Summer.Generated.DerivedOut\n")
+    dtext = "\n".join(dout)
+    dpath = os.path.join(OUT, "DerivedOut.lean")
+    old = open(dpath).read() if os.path.exists(dpath) else None
+    if old != dtext:
+        with open(dpath, "w") as f:
+            f.write(dtext)
     print(json.dumps(report))
 
 
